@@ -86,6 +86,25 @@ pub fn run(tier: Tier) -> Run {
         alpha2.push(BOp::TypeCall(si, None, 0));
     }
     let mut c = xs::enumerate(&alpha2, 2, &f);
+    // ---- part 2c: every triple X, Y, X over the base requests of all type methods: a declaration of ANOTHER kind
+    //      landing directly behind the first request must not hide it from the second
+    {
+        use rayon::prelude::*;
+        let n = sites.len();
+        let triples: Vec<xs::Step> = (0..n * n).into_par_iter().map(|i| f(&[BOp::TypeCall(i / n, None, 0), BOp::TypeCall(i % n, None, 0), BOp::TypeCall(i / n, None, 0)])).collect();
+        for st in triples {
+            c.transitions += 3;
+            c.histories_replayed += 1;
+            for v in st.viols {
+                if !c.viols.iter().any(|x| x.key == v.key) {
+                    c.viols.push(v);
+                }
+            }
+            for k in st.outcomes {
+                *c.outcomes.entry(k).or_insert(0) += 1;
+            }
+        }
+    }
     for st in per_site {
         c.states += st.states;
         c.transitions += st.transitions;
